@@ -12,7 +12,7 @@
 
 using namespace c08;
 
-// Calibration (pristine tree, 7.2e8 vectors x 3 functions per family in the thorough tier + quick seeds 1..5):
+// Calibration (pristine tree, 6.75e8 vectors x 3 functions per family in the thorough tier + quick seeds 1..5):
 // worst | |n|-1 | / eps = 1.77 (float) / 1.84 (double); worst |n_i*ref - v_i| / (eps*ref) = 1.75 / 1.83.
 // Bounds = 8 x worst, rounded up.
 static const double C_UNIT  = 16.0;
@@ -131,7 +131,7 @@ norm_case (Ctx& c, uint64_t idx, Counts& k, Worsts& ws)
         out (v0.normalizedNonNull ());
         judge<T, N> (c, F_NORMALIZED_NONNULL, idx, cls, a, n, ref, normal, ws);
     }
-    if ((idx % 1000003) == 13)
+    if (idx / 24 == 777)
         c.sample (cls_name[cls], [&] { return Obj ().kv ("dim", N).raw ("v", vec_json<T, N> (a)).kv ("v_bits", vec_hex<T, N> (a)).raw ("last_result", vec_json<T, N> (n)).kv ("ref_norm", (double) ref).str (); });
 }
 
@@ -168,19 +168,19 @@ static void sub_value_d (Ctx& c, uint64_t b, uint64_t e) { sub_norm<double, fals
 #define C08_NORM_REQ                                                                                                             \
     []{ std::vector<std::string> v = C08_REQ_CLASSES; v.push_back ("norm_normal"); v.push_back ("norm_subnormal_only_finiteness_judged"); return v; }()
 
-MON_SUB (sub_inplace_f, "normalize_inplace_float", 3000000, 240000000)
+MON_SUB (sub_inplace_f, "normalize_inplace_float", 12000000, 450000000)
     .req (C08_NORM_REQ)
     .chunked (8192)
     .over ("Vec2/3/4<float>::normalize, normalizeExc, normalizeNonNull on non-zero vectors of the 8 input classes: finite; for a normal reference norm unit length, component signs, component ratios");
-MON_SUB (sub_inplace_d, "normalize_inplace_double", 1500000, 120000000)
+MON_SUB (sub_inplace_d, "normalize_inplace_double", 6000000, 225000000)
     .req (C08_NORM_REQ)
     .chunked (8192)
     .over ("Vec2/3/4<double>::normalize, normalizeExc, normalizeNonNull (reference in __float128)");
-MON_SUB (sub_value_f, "normalized_value_float", 3000000, 240000000)
+MON_SUB (sub_value_f, "normalized_value_float", 12000000, 450000000)
     .req (C08_NORM_REQ)
     .chunked (8192)
     .over ("Vec2/3/4<float>::normalized, normalizedExc, normalizedNonNull on non-zero vectors of the 8 input classes");
-MON_SUB (sub_value_d, "normalized_value_double", 1500000, 120000000)
+MON_SUB (sub_value_d, "normalized_value_double", 6000000, 225000000)
     .req (C08_NORM_REQ)
     .chunked (8192)
     .over ("Vec2/3/4<double>::normalized, normalizedExc, normalizedNonNull (reference in __float128)");
